@@ -451,7 +451,13 @@ func (o *lifeOps) respond(s *lifeSess, q *lreq) {
 	s.mu.Unlock()
 	q.mu.Lock()
 	q.nans++
+	late := q.nans > 1
 	q.mu.Unlock()
+	if late && q.rid%2 == 0 {
+		// an extra answer that reports a failure: it must find the request answered and touch nothing
+		r.RespondError(&g.Error{Err: "lifeOps: late failure", Errornum: 5})
+		return
+	}
 	switch q.typ {
 	case g.Tread:
 		data := []byte(fmt.Sprintf("data-%d-%d", q.rid, q.tag))
